@@ -514,14 +514,14 @@ def rand_sym(rnd, nul=False):
     return b
 
 
-def id_pool(rnd):
+def id_pool(rnd, tier='quick'):
     r = rnd.random()
     if r < 0.5:
         return list(range(rnd.choice([2, 3, 4, 6])))
-    if r < 0.8:
+    if r < 0.93:
         return sorted(set([0] + rnd.sample([1, 2, 3, 5, 8, 13, 17, 31, 32, 33, 64, 100, 255, 256, 1000], rnd.randint(2, 5))))
-    if r < 0.97:
-        return sorted(set([0, 1] + rnd.sample([2, 7, 100, 1023, 1024, 2000, 4095, 4096, 5000], rnd.randint(1, 4))))
+    if r < 0.997 or tier != 'thorough':
+        return sorted(set([0, 1] + rnd.sample([2, 7, 100, 1023, 1024, 2000, 4095, 4096], rnd.randint(1, 4))))
     return sorted(set([0, 3, 16384, rnd.choice([9999, 12000, 16383])]))
 
 
@@ -652,6 +652,8 @@ FIXED = [
     ([2, 0, 1, 2, 0, 1, 97, 2, 1, 1, 98, 11, 6, 0, 2, 0, 1, 99, 2, 0, 1, 100, 4, 0, 1, 0, 6, 1, 6, 1, 6, 7], 'remove-readd'),
     # function id with the sign bit: base is int32_t, the term becomes a "tuple"
     ([1, 0, 4, 0, 4294967295, 0, 4, 0, 2147483648, 0], 'funcid-signbit'),
+    # a large id (the stacks grow one push - one realloc - at a time)
+    ([2, 8192, 8191, 1, 8192, -1, 7, 8192, 1, 8192, 0, 11, 1, 8192, 5, 6, 8192, 2, 8192, 1, 97], 'large-id'),
     # atom id wider than the 31-bit field
     ([0, 9, 4294967295, 0, 0, 9, 2147483648, 0, 0, 13, 1, 0], 'atom-31bit'),
 ]
@@ -670,7 +672,7 @@ def gen(seed, tier):
         for base, gap in ((0, 1), (1, 3), (5, 100)):
             out.append((chain_case(rnd, depth, base, gap), {'kind': 'chain-depth'}))
     while len(out) < total:
-        pool = id_pool(rnd)
+        pool = id_pool(rnd, tier)
         big = max(pool) > 1100
         r = rnd.random()
         nul = r < 0.03
